@@ -149,6 +149,8 @@ package generator
 //@   propagates
 //@   ensures res != nil && forall k int :: 0 <= k && k < len(res.Contents) ==> res.Contents[k] != nil
 //@   ensures $failed ==> res.Error != nil
+//@   ensures ncalls("NewFileManager") >= 1 ==> ncalls("NewFileManager") == 1 && g.files == callret("NewFileManager", 0)
+//@   site call:g.GetBackend assert ncalls("NewFileManager") == 1 && g.files == callret("NewFileManager", 0)
 //@   modifies *
 //@   site call:be.Generate assert req.GeneratorParameters == plugin.Pack(out.Options)
 //@   site call:p.Execute assert req.PluginParameters == plugin.Pack(out.UsedPlugins[i].Options)
